@@ -4,37 +4,44 @@
 
    [run_html q inp] is the model of `robsd-regress-html -o out arch:path ...`
    (Html/HtmlDefs.v; tied to the binary by the correspondence check and, for
-   the tables, constants and the two repairable functions, by the translator
-   harness/t_html.py -> gen/Gen_Html.v): None = exit 1, Some page = the header
-   columns, the body rows as rendered and the output tree.  [q] is libc's
-   qsort, about which only [qsorts_ok] is assumed: it returns a permutation of
-   its input that is ordered by the comparison function.  [view] is what the
-   command line denotes (Html/HtmlSpec.v): the invocations with their start
-   time and their runs (suite, exit code, log).
+   the tables, constants, render_rate and the pointer arithmetic of render_suite,
+   by the translator harness/t_html.py -> gen/Gen_Html.v): None = exit 1,
+   Some page = the header columns, the body rows as rendered and the output
+   tree.  [q] is libc's qsort, about which only [qsorts_ok] is assumed: it
+   returns a permutation of its input that is ordered by the comparison
+   function.  [view] is what the command line denotes (Html/HtmlSpec.v): the
+   invocations with their start time and their runs (suite, exit code, log).
 
    Quantifiers: every command line (any number of arch arguments and
    invocations, any step files, any log contents), every qsort.
 
-   Full statement of the matrix clause:
+   The matrix clause of the property:
      for all inputs, the cell of suite S under the column of invocation I shows
      a status iff S ran in I, namely the status of that run, linking to its log
-     below I's arch/date directory; rendering never reads outside its data.
-   The code VIOLATES the first half (defect D9, recorded as a known finding):
-   runs are matched to columns by start time only.  Hence
-   C14_cell_iff_ran_refuted (witnesses replayed on the real binary by
-   corpus/C14) and the _partial versions under the exact guards
-   [distinct_times] and [one_run_per_suite].
+     below I's arch/date directory.
+   What holds FOR ALL INPUTS (no guard): every rendered cell is the status and
+   the arch/date/log link of SOME run of that suite, in a column that did not
+   start later than the run's own invocation; no row is longer than the header
+   (C14_cells_sound); and the row is exactly the placement by counting of
+   C14_row_placement.  The "iff S ran in I" part is VIOLATED by the code (known
+   finding run-shown-under-wrong-invocation: runs are matched to columns by
+   start time only): C14_cell_iff_ran_refuted(_any_qsort), and
+   C14_cell_iff_ran_partial under the PER-ROW guard [row_guard v S] (S recorded
+   at most once per invocation; an invocation in which S ran shares its start
+   time with no other).  C14_wrong_invocation_iff says exactly when a run is
+   shown under another invocation (suite recorded at most once per invocation).
 
    Two defects were repaired in /repo and their clauses are stated at full
    strength for the code as it is now: the pass rate (D8: computed in float and
    truncated; now integer arithmetic) and the bound of the column pointer (D9:
    out-of-bounds read when a suite is recorded twice in an invocation).
-   gen/Gen_Html.v says which render_rate / render_suite the source contains;
-   Html/HtmlTie.v - and with it C14_rate and C14_no_oob - stop compiling when
-   either repair is taken out again, and the check then replays
-   C14_regression_float_rate / C14_regression_unbounded_walk's inputs
-   (corpus/C14) on the real binary. *)
-From Robsd Require Import Html.HtmlProofs Html.HtmlWitness Html.HtmlTie.
+   gen/Gen_Html.v says which render_rate the source contains and what the end
+   pointer of render_suite is; Html/HtmlProofs.v (walk_params_sane) and
+   Html/HtmlTie.v stop compiling when either repair is taken out or the bound is
+   off by one, and the check then replays corpus/C14 on the real binary.
+   Theorems named C14_historical_* are pins of the shipped code that no longer
+   exists in /repo; they are not results about the current tree. *)
+From Robsd Require Import Html.HtmlProofs Html.HtmlWitness Html.HtmlTie Html.HtmlSuccess Html.HtmlRow Html.HtmlOracle.
 From RobsdGen Require Import Gen_Html.
 From Coq Require Import String Sorting.Sorted Sorting.Permutation.
 Local Open Scope N_scope.
@@ -49,6 +56,13 @@ Theorem C14_tables :
   name_end = [101; 110; 100] /\ name_attic = [97; 116; 116; 105; 99].
 Proof. exact (conj statuses_tie (conj failure_statuses constants_tie)). Qed.
 Print Assumptions C14_tables.
+
+(* which forms regress-html.c contains: integer pass rate; column pointer bounded
+   by end = ri + VECTOR_LENGTH(r->invocations) + 0, loop test ri < end *)
+Theorem C14_source_variants :
+  rate_is_integer = true /\ walk_is_bounded = true /\ walk_end_extra = 0%Z /\ walk_end_strict = true.
+Proof. exact variants_full. Qed.
+Print Assumptions C14_source_variants.
 
 (* the sorting function the extracted driver runs is one of the qsorts quantified over *)
 Theorem C14_exec_qsort_admissible : qsorts_ok exec_qsorts.
@@ -78,11 +92,37 @@ Theorem C14_log_extract : forall st log, extract_log st log = spec_extract st lo
 Proof. exact extract_spec. Qed.
 Print Assumptions C14_log_extract.
 
-(* ---- invalid input is answered with exit 1 ---- *)
-Theorem C14_invalid_rejected : forall q inp,
-  view (walk_dirs q) inp = None -> run_html q inp = None.
-Proof. exact run_html_invalid. Qed.
-Print Assumptions C14_invalid_rejected.
+(* ---- exit status: for every qsort whatsoever, exit 1 exactly when nothing is
+   named, an invocation is invalid, or the arch/date directory of an invocation
+   (or its diff directory) is a path the invocations before it wrote already ---- *)
+Theorem C14_exit_iff : forall q inp,
+  run_html q inp = None <->
+  inp = [] \/ view (walk_dirs q) inp = None \/
+  exists v, view (walk_dirs q) inp = Some v /\
+    exists v1 I v2, v = v1 ++ I :: v2 /\
+      (In (sinv_dir I) (map fst (flat_map spec_tree_inv v1)) \/
+       In (pjoin (sinv_dir I) name_diff) (map fst (flat_map spec_tree_inv v1))).
+Proof. exact run_html_none. Qed.
+Print Assumptions C14_exit_iff.
+
+(* a page always means pairwise different arch/date directories; for arch and
+   directory names without '/' the converse holds: there is a page exactly when
+   the input is valid and no arch/date pair repeats *)
+Theorem C14_page_iff_partial : forall q inp,
+  (forall pg v, run_html q inp = Some pg -> view (walk_dirs q) inp = Some v -> NoDup (map sinv_dir v)) /\
+  (forall v, view (walk_dirs q) inp = Some v -> (forall I, In I v -> plain I) ->
+     ((exists pg, run_html q inp = Some pg) <-> inp <> [] /\ NoDup (map sinv_dir v))).
+Proof. exact page_iff_plain. Qed.
+Print Assumptions C14_page_iff_partial.
+
+(* ... and not for names with '/': arch "a/b" with directory "c", then arch "a"
+   with directory "b" - distinct arch/date pairs, exit 1 (on the real program
+   mkdir fails for such an arch) *)
+Theorem C14_page_iff_refuted :
+  exists v, view (walk_dirs exec_qsorts) w_slash = Some v /\ NoDup (map sinv_dir v) /\ w_slash <> [] /\
+            run_html_exec w_slash = None.
+Proof. exact page_slash_witness. Qed.
+Print Assumptions C14_page_iff_refuted.
 
 (* ---- one column per invocation, in descending start-time order ---- *)
 Theorem C14_columns_sorted : forall q inp pg,
@@ -97,9 +137,60 @@ Theorem C14_columns_sorted : forall q inp pg,
 Proof. exact columns_sorted. Qed.
 Print Assumptions C14_columns_sorted.
 
-(* ---- the matrix ---- *)
+(* ---- the matrix, for all inputs ---- *)
 
-(* REFUTED as stated for all inputs (defect D9).
+(* every row is a row of cells, never longer than the header; every non-empty
+   cell shows the status derived from the exit code and log of SOME run of that
+   suite and links to that run's log below its own arch/date directory; the
+   column it stands in belongs to an invocation that started no later than the
+   run's own *)
+Theorem C14_cells_sound : forall q inp pg,
+  qsorts_ok q -> run_html q inp = Some pg ->
+  exists v vs, page_of_view q inp pg v vs /\
+    forall S row, In (S, row) (p_rows pg) ->
+      exists cells, row = RowOk cells /\ (List.length cells <= List.length (p_cols pg))%nat /\
+        forall j st href, nth_error cells j = Some (Some (st, href)) ->
+          exists I sr J, In I v /\ In sr (si_runs I) /\ sr_suite sr = S /\
+            st = spec_status (sr_exit sr) (sr_content sr) /\
+            href = pjoin (pjoin (si_arch I) (si_date I)) (sr_log sr) /\
+            nth_error vs j = Some J /\ (si_time J <= si_time I)%Z.
+Proof. exact cells_sound. Qed.
+Print Assumptions C14_cells_sound.
+
+(* what the row of a suite is, exactly: its runs (with the invocation each
+   belongs to), in the order irs qsort left them (descending start time), are
+   placed by counting - run number k stands at column index
+     place_k = max (number of invocations that started after it, place_(k-1) + 1)
+   if there is such a column; nothing else is shown; no empty cell follows the
+   last run.  [newer]/[place] count over the view as given, not over the sorted
+   columns the program walks. *)
+Theorem C14_row_placement : forall q inp pg,
+  qsorts_ok q -> run_html q inp = Some pg ->
+  exists v vs, page_of_view q inp pg v vs /\
+    forall S row, In (S, row) (p_rows pg) ->
+      exists cells irs, row = RowOk cells /\
+        qs_runs q (map run_of' (suite_runs v S)) = map run_of' irs /\
+        Permutation (suite_runs v S) irs /\
+        StronglySorted (fun a b => (irun_time b <= irun_time a)%Z) irs /\
+        let ps := place (map si_time v) 0 (map irun_time irs) in
+        (List.length cells <= List.length v)%nat /\
+        (forall k p x, nth_error ps k = Some p -> nth_error irs k = Some x -> (p < List.length v)%nat ->
+                       nth_error cells p = Some (Some (irun_cell x))) /\
+        (forall j c, nth_error cells j = Some (Some c) ->
+                     exists k x, nth_error ps k = Some j /\ nth_error irs k = Some x /\ c = irun_cell x) /\
+        trim_cells cells = cells.
+Proof. exact row_unguarded. Qed.
+Print Assumptions C14_row_placement.
+
+(* the suites of the page are exactly the suites of these run lists *)
+Theorem C14_suite_runs : forall v S I sr,
+  In (I, sr) (suite_runs v S) <-> In I v /\ In sr (si_runs I) /\ sr_suite sr = S.
+Proof. exact in_suite_runs. Qed.
+Print Assumptions C14_suite_runs.
+
+(* ---- "shows a status iff S ran in I" ---- *)
+
+(* REFUTED as stated for all inputs (known finding run-shown-under-wrong-invocation).
    (a) two invocations with equal start times (two arches): the column of I is
        a1's, the row of x/only2 shows a status there with a2's log, and x/only2
        did not run in I - although every suite ran at most once per invocation;
@@ -123,50 +214,80 @@ Theorem C14_cell_iff_ran_refuted :
 Proof. exact (conj tie_witness dup_witness). Qed.
 Print Assumptions C14_cell_iff_ran_refuted.
 
-(* ... and (a) is not an artefact of how the sort breaks ties: for EVERY qsort,
-   on two arches with equal start times and one suite each, the first column
-   belongs to one invocation and the row of the suite that ran only in the
-   other one shows its run there *)
+(* ... and neither is an artefact of how the sort breaks ties: for EVERY qsort,
+   (a) on two arches with equal start times and one suite each, the first column
+   belongs to one invocation and the row of the suite that ran only in the other
+   one shows its run there; (b) on the duplicate-suite input the second column is
+   the older invocation and shows a link into the newer invocation's directory *)
 Theorem C14_cell_iff_ran_refuted_any_qsort : forall q, qsorts_ok q ->
-  exists pg v I S st href,
+  (exists pg v I S st href,
     run_html q w_tie2 = Some pg /\ view (walk_dirs q) w_tie2 = Some v /\
     one_run_per_suite v /\ In I v /\
     nth_error (p_cols pg) 0 = Some (render_column (rinv_of I)) /\
-    In (S, RowOk [Some (st, href)]) (p_rows pg) /\ ~ ran_in S I.
-Proof. exact tie_any_qsort. Qed.
+    In (S, RowOk [Some (st, href)]) (p_rows pg) /\ ~ ran_in S I) /\
+  (exists pg v I S c0 st href,
+    run_html q w_dup = Some pg /\ view (walk_dirs q) w_dup = Some v /\
+    distinct_times v /\ In I v /\
+    nth_error (p_cols pg) 1 = Some (render_column (rinv_of I)) /\
+    In (S, RowOk [c0; Some (st, href)]) (p_rows pg) /\ ~ ran_in S I /\
+    si_date I = bs "2022-10-24.1" /\ prefixb (bs "a1/2022-10-25.1/") href = true).
+Proof. exact (fun q Hq => conj (tie_any_qsort q Hq) (dup_any_qsort q Hq)). Qed.
 Print Assumptions C14_cell_iff_ran_refuted_any_qsort.
 
-(* under the guards: for every qsort and every input, every row is a row of
-   cells, no longer than the header, and the cell in the column of invocation I
-   is non-empty iff the suite ran in I; then it carries the status derived from
-   that run's exit code and log and links to arch/date/log of I
-   (C14_cell_iff_ran_partial and C14_cell_status_partial in one statement) *)
+(* under the PER-ROW guard: for every qsort and every input, the row of a suite
+   S that is recorded at most once per invocation and whose invocations share
+   their start time with no other invocation is the specified row (spec_row =
+   the cells spec_cell S I of the columns, trailing empty cells not rendered):
+   the cell in the column of invocation I is non-empty iff S ran in I, and then
+   carries the status derived from that run's exit code and log and links to
+   arch/date/log of I.  Ties among invocations in which S did not run are
+   harmless; the guard of one row says nothing about the others. *)
 Theorem C14_cell_iff_ran_partial : forall q inp pg,
   qsorts_ok q -> run_html q inp = Some pg ->
-  exists v vs, page_of_view q inp pg v vs /\
-    (distinct_times v -> one_run_per_suite v ->
-     forall S row, In (S, row) (p_rows pg) ->
-       exists cells, row = RowOk cells /\
-         (List.length cells <= List.length vs)%nat /\
-         forall j I, nth_error vs j = Some I ->
-           (nth j cells None <> None <-> ran_in S I) /\
-           (forall st href, nth j cells None = Some (st, href) ->
-              exists sr, In sr (si_runs I) /\ sr_suite sr = S /\
-                         st = spec_status (sr_exit sr) (sr_content sr) /\
-                         href = pjoin (pjoin (si_arch I) (si_date I)) (sr_log sr))).
-Proof. exact cells_partial. Qed.
+  exists v vs, page_of_view q inp pg v vs /\ NoDup (map sinv_dir v) /\
+    forall S row, In (S, row) (p_rows pg) -> row_guard v S ->
+      row = RowOk (spec_row vs S) /\
+      (List.length (spec_row vs S) <= List.length vs)%nat /\
+      forall j I, nth_error vs j = Some I ->
+        (nth j (spec_row vs S) None <> None <-> ran_in S I) /\
+        (forall st href, nth j (spec_row vs S) None = Some (st, href) ->
+           exists sr, In sr (si_runs I) /\ sr_suite sr = S /\
+                      st = spec_status (sr_exit sr) (sr_content sr) /\
+                      href = pjoin (pjoin (si_arch I) (si_date I)) (sr_log sr)).
+Proof. exact row_guarded. Qed.
 Print Assumptions C14_cell_iff_ran_partial.
 
-(* the same, as an equation: the row is the specified row (spec_row = the cells
-   spec_cell S I of the columns, trailing empty cells not rendered) *)
-Theorem C14_cell_status_partial : forall q inp pg,
+(* the two global guards of the earlier formulation (all start times pairwise
+   distinct, every suite at most once per invocation) are a special case *)
+Theorem C14_global_guards_suffice : forall v S,
+  NoDup v -> distinct_times v -> one_run_per_suite v -> row_guard v S.
+Proof. exact global_guards_row. Qed.
+Print Assumptions C14_global_guards_suffice.
+
+(* the finding, characterised for every input and every qsort: when S is
+   recorded at most once per invocation, EVERY run of S is shown, under a column
+   whose invocation has the run's own start time t - at index
+     (number of invocations that started after t) + (number of runs of S with
+      start time t that stand before it in S's sorted run list);
+   it is the run's own column exactly when that rank equals the rank of its
+   invocation among the columns with start time t.  Hence a run is shown under
+   another invocation exactly when the two ranks differ, which takes another
+   invocation with the same start time. *)
+Theorem C14_wrong_invocation_iff : forall q inp pg,
   qsorts_ok q -> run_html q inp = Some pg ->
-  exists v vs, view (walk_dirs q) inp = Some v /\ Permutation v vs /\ StronglySorted time_ge vs /\
-    p_cols pg = map (fun I => render_column (rinv_of I)) vs /\
-    (distinct_times v -> one_run_per_suite v ->
-     forall S row, In (S, row) (p_rows pg) -> row = RowOk (spec_row vs S)).
-Proof. exact matrix_partial. Qed.
-Print Assumptions C14_cell_status_partial.
+  exists v vs, page_of_view q inp pg v vs /\
+    forall S row, In (S, row) (p_rows pg) -> (forall I, In I v -> once S I) ->
+      exists cells irs, row = RowOk cells /\ Permutation (suite_runs v S) irs /\
+        forall k I sr, nth_error irs k = Some (I, sr) ->
+          let t := si_time I in
+          let rank_run := count_eq t (map irun_time (firstn k irs)) in
+          let p := (newer (map si_time v) t + rank_run)%nat in
+          nth_error cells p = Some (Some (irun_cell (I, sr))) /\
+          (exists J, nth_error vs p = Some J /\ si_time J = t) /\
+          (forall i, nth_error vs i = Some I ->
+             (i = p <-> count_eq t (map si_time (firstn i vs)) = rank_run)).
+Proof. exact run_column. Qed.
+Print Assumptions C14_wrong_invocation_iff.
 
 (* ---- one row per suite; failing suites first ---- *)
 Theorem C14_rows : forall q inp pg,
@@ -176,6 +297,17 @@ Theorem C14_rows : forall q inp pg,
     StronglySorted (fun S T => row_le v S T = true) (map fst (p_rows pg)).
 Proof. exact rows_order. Qed.
 Print Assumptions C14_rows.
+
+(* ... as an equation: the rows are the insertion sort of the suites (in order of
+   first appearance) by the row order - group (failing somewhere / never failing /
+   never failing and outside the regress directory), failures descending, name;
+   that order is total and antisymmetric on names, so the arrangement is unique
+   whatever qsort does *)
+Theorem C14_rows_sorted_spec : forall q inp pg,
+  qsorts_ok q -> run_html q inp = Some pg ->
+  exists v, view (walk_dirs q) inp = Some v /\ map fst (p_rows pg) = isort (row_le v) (spec_suites v).
+Proof. exact rows_eq_isort. Qed.
+Print Assumptions C14_rows_sorted_spec.
 
 (* whenever the row of S is above the row of T: T failing somewhere implies S
    failing somewhere, at least as often; S a never-failing ../ suite implies T
@@ -193,10 +325,11 @@ Theorem C14_failing_first : forall q inp pg,
 Proof. exact failing_first. Qed.
 Print Assumptions C14_failing_first.
 
-(* ---- pass rate = floor(100 * (total - fail) / total) ---- *)
+(* ---- pass rate = floor(100 * (total - fail) / total), 0 when nothing ran ---- *)
 
 (* for every qsort and every input: every column's pass rate is the share of
-   non-failing suites of its invocation, rounded down *)
+   non-failing runs of its invocation, rounded down (total = the recorded runs:
+   a suite recorded twice counts twice) *)
 Theorem C14_rate : forall q inp pg, qsorts_ok q -> run_html q inp = Some pg ->
   exists v vs, page_of_view q inp pg v vs /\
     map c_rate (p_cols pg) =
@@ -204,23 +337,26 @@ Theorem C14_rate : forall q inp pg, qsorts_ok q -> run_html q inp = Some pg ->
 Proof. exact rate_full. Qed.
 Print Assumptions C14_rate.
 
-(* the integer form is the specified rate, for all totals *)
-Theorem C14_rate_integer_form : forall total fail,
-  rate_int (Z.of_nat total) (Z.of_nat fail) = spec_rate total fail.
-Proof. exact rate_int_spec. Qed.
-Print Assumptions C14_rate_integer_form.
+(* the integer arithmetic of the source is the specified rate for ALL counts,
+   including no runs at all; the failing runs are among the runs; the rate lies
+   in 0..100 and is 100 exactly when nothing failed *)
+Theorem C14_rate_all_counts :
+  (forall total fail, rate_int (Z.of_nat total) (Z.of_nat fail) = spec_rate total fail) /\
+  (forall I, (si_fail I <= si_total I)%nat) /\
+  (forall total fail,
+     spec_rate 0 fail = 0%Z /\
+     ((fail <= total)%nat -> (0 <= spec_rate total fail <= 100)%Z) /\
+     ((0 < total)%nat -> spec_rate total 0 = 100%Z) /\
+     ((0 < total)%nat -> (fail <= total)%nat -> (spec_rate total fail = 100%Z <-> fail = 0%nat))).
+Proof. exact (conj rate_int_spec (conj si_fail_le spec_rate_facts)). Qed.
+Print Assumptions C14_rate_all_counts.
 
-(* which forms regress-html.c contains, read by the translator *)
-Theorem C14_source_variants : rate_is_integer = true /\ walk_is_bounded = true.
-Proof. exact variants. Qed.
-Print Assumptions C14_source_variants.
-
-(* documented regression (defect D8, repaired): the float form
-   1 - fail/(float)total, times 100, truncated, shows 2 of 5 passing as 39%;
-   for every total it is right in the trivial cases, and by enumeration of all
-   totals up to 64 (a bounded statement, said so) it is right or one too small,
+(* HISTORICAL PIN, not a result about /repo: the float form that /repo had before
+   ea4de2c (1 - fail/(float)total, times 100, truncated; [rate_float] is a model
+   of code that no longer exists) showed 2 of 5 passing as 39%; by enumeration
+   of all totals up to 64 (a bounded statement) it is right or one too small,
    the latter only where the exact quotient is an integer *)
-Theorem C14_regression_float_rate :
+Theorem C14_historical_float_rate :
   (rate_float 5 3 = 39%Z /\ spec_rate 5 3 = 40%Z /\ rate_int 5 3 = 40%Z) /\
   (forall total, rate_float 0 0 = 0%Z /\ ((0 < total)%Z -> rate_float total 0 = 100%Z)) /\
   (forall total fail, (1 <= total <= 64)%nat -> (fail <= total)%nat ->
@@ -228,52 +364,79 @@ Theorem C14_regression_float_rate :
      (rate_float (Z.of_nat total) (Z.of_nat fail) = (spec_rate total fail - 1)%Z /\
       ((100 * (Z.of_nat total - Z.of_nat fail)) mod Z.of_nat total = 0)%Z)).
 Proof. exact (conj rate_float_witness (conj rate_float_trivial rate_float_upto_64)). Qed.
-Print Assumptions C14_regression_float_rate.
+Print Assumptions C14_historical_float_rate.
 
-(* ---- rendering never reads outside its data ---- *)
+(* ---- rendering never reads outside its data: the column pointer ---- *)
 
-(* for every input and every qsort whatsoever (not even a sorting one): every
-   row is a row of cells; the column pointer is never dereferenced at or beyond
-   the end of the invocation vector *)
+(* [render_suite] is modelled with the pointer arithmetic the source has
+   (HtmlDefs.walk_ix: end = ri + VECTOR_LENGTH + walk_end_extra, loop test <
+   or <=, break test == or >=, all read by the translator), every read of
+   ri->time through a checked accessor.  For every input and every qsort
+   whatsoever (not even a sorting one): no row reports a read at or beyond the end
+   of the invocation vector, and no row has more cells than the header *)
 Theorem C14_no_oob : forall q inp pg S row,
-  run_html q inp = Some pg -> In (S, row) (p_rows pg) -> exists cells, row = RowOk cells.
-Proof. exact no_oob_full. Qed.
+  run_html q inp = Some pg -> In (S, row) (p_rows pg) ->
+  exists cells, row = RowOk cells /\ (List.length cells <= List.length (p_cols pg))%nat.
+Proof. exact no_oob_width. Qed.
 Print Assumptions C14_no_oob.
 
-(* documented regression (defect D9, repaired): without the bound the same
-   suite twice in the only invocation leaves the pointer at the end of the
-   vector after the first run, and the loop condition reads it; with the bound
-   the surplus run is not rendered *)
-Theorem C14_regression_unbounded_walk :
-  (let c := mkrinv (bs "a1") (bs "d") 2000 100 DNone 2 0 false 0 in
-   let r1 := mkrun (bs "l1") 2000 0 PASS in
-   let r2 := mkrun (bs "l2") 2000 0 PASS in
-   walk false [c] 0 [r1; r2] [] = RowOOB [Some (PASS, bs "l1")] /\
-   walk true [c] 0 [r1; r2] [] = RowOk [Some (PASS, bs "l1")]) /\
-  exists v, view (walk_dirs exec_qsorts) w_oob = Some v /\ distinct_times v /\
-    match run_html_exec w_oob with
-    | Some pg => p_rows pg = [(bs "x/s", (if walk_is_bounded then RowOk else RowOOB)
-                                           [Some (PASS, bs "a1/2022-10-25.1/s1.log")])]
-    | None => False
-    end.
-Proof. exact (conj oob_walk_witness oob_page_witness). Qed.
-Print Assumptions C14_regression_unbounded_walk.
+(* the bound is exact: the limit the source has excludes index VECTOR_LENGTH,
+   and with one invocation ANY end pointer/loop test that lets the loop look at index 1 reads
+   outside the vector when a suite is recorded twice (so an off-by-one in
+   render_suite is a different model, not the same one) *)
+Theorem C14_bound_is_tight :
+  (forall cols, in_range (walk_limit cols) (List.length cols) = false) /\
+  (forall wl, in_range (Some wl) 1 = true ->
+     walk_ix (Some wl) [oob_col] 0 [oob_r1; oob_r2] [] = RowOOB [Some (PASS, [108; 49])]).
+Proof. exact (conj source_limit_exact bound_is_tight). Qed.
+Print Assumptions C14_bound_is_tight.
+
+(* HISTORICAL PIN, not a result about /repo: the walk without an end pointer that
+   /repo had before 4acd4e2 ([walk false], [walk_ix None]) leaves the pointer
+   at the end of the vector after the first of two runs of one suite, and the
+   loop condition reads it; the walk of the current source renders the first run
+   and stops *)
+Theorem C14_historical_unbounded_walk :
+  (walk false [oob_col] 0 [oob_r1; oob_r2] [] = RowOOB [Some (PASS, [108; 49])] /\
+   walk_ix None [oob_col] 0 [oob_r1; oob_r2] [] = RowOOB [Some (PASS, [108; 49])] /\
+   walk_ix (walk_limit [oob_col]) [oob_col] 0 [oob_r1; oob_r2] [] = RowOk [Some (PASS, [108; 49])]) /\
+  exists pg, run_html_exec w_oob = Some pg /\
+    p_rows pg = [(bs "x/s", RowOk [Some (PASS, bs "a1/2022-10-25.1/s1.log")])].
+Proof. exact (conj oob_walks oob_page_current). Qed.
+Print Assumptions C14_historical_unbounded_walk.
 
 (* ---- the output tree: every file and directory below the output directory
    is the specified one (copies of dmesg, comment, patches, and per run the
-   extraction of its log; an existing path is never overwritten), and the link
-   of every run of every invocation leads to a file of that tree ---- *)
+   extraction of its log; an existing path is never overwritten) ---- *)
 Theorem C14_output_tree : forall q inp pg, run_html q inp = Some pg ->
   exists v, view (walk_dirs q) inp = Some v /\ p_tree pg = spec_tree v.
 Proof. exact page_tree. Qed.
 Print Assumptions C14_output_tree.
 
-Theorem C14_links_exist : forall q inp pg, run_html q inp = Some pg ->
-  exists v, view (walk_dirs q) inp = Some v /\
+(* the link of every run of every invocation names exactly one entry of that
+   tree, and that entry is a file holding the extraction of THAT run's log -
+   provided every creation of that path writes this content *)
+Theorem C14_link_target_partial : forall q inp pg, run_html q inp = Some pg ->
+  exists v, view (walk_dirs q) inp = Some v /\ NoDup (map fst (p_tree pg)) /\
     forall I sr, In I v -> In sr (si_runs I) ->
-      exists c, In (pjoin (pjoin (si_arch I) (si_date I)) (sr_log sr), c) (p_tree pg).
-Proof. exact links_exist. Qed.
-Print Assumptions C14_links_exist.
+      let href := pjoin (pjoin (si_arch I) (si_date I)) (sr_log sr) in
+      let copy := spec_extract (spec_status (sr_exit sr) (sr_content sr)) (sr_content sr) in
+      (forall c, In (href, c) (flat_map spec_tree_inv v) -> c = Some copy) ->
+      tree_lookup (p_tree pg) href = Some (Some copy).
+Proof. exact link_target. Qed.
+Print Assumptions C14_link_target_partial.
+
+(* without the proviso it fails: two steps of one invocation naming the same
+   log file, one exiting 0 (SKIP) and one exiting 1 (FAIL) - the FAIL cell
+   links to the extraction made for the SKIP run *)
+Theorem C14_link_target_refuted :
+  exists pg v I sr other,
+    run_html_exec w_shared = Some pg /\ view (walk_dirs exec_qsorts) w_shared = Some v /\
+    In I v /\ In sr (si_runs I) /\ sr_suite sr = bs "x/b" /\
+    tree_lookup (p_tree pg) (pjoin (pjoin (si_arch I) (si_date I)) (sr_log sr)) = Some (Some other) /\
+    other <> spec_extract (spec_status (sr_exit sr) (sr_content sr)) (sr_content sr).
+Proof. exact link_witness. Qed.
+Print Assumptions C14_link_target_refuted.
 
 (* ---- the oracle applied to what the implementation rendered means the
    specification: exit status, columns = the invocations by descending start
@@ -297,6 +460,26 @@ Theorem C14_oracle_sound : forall inp o,
        tree_ok (spec_tree v) (o_tree o) = true).
 Proof. exact (fun inp o => conj (spec_ok_reject inp o) (fun v => spec_ok_sound inp o v)). Qed.
 Print Assumptions C14_oracle_sound.
+
+(* ... and it is tied to the theorems: applied to what the MODEL renders for a
+   command line with arch and directory names free of '/', it can only ever
+   fail clause 6 (a cell - the known finding), and it accepts the page as soon
+   as every suite satisfies the per-row guard *)
+Theorem C14_oracle_accepts_model_partial : forall inp, plain_input inp ->
+  (forall k, In k (spec_check inp (obs_of (run_html_exec inp))) -> k = 6) /\
+  (forall v, view (walk_dirs exec_qsorts) inp = Some v ->
+     (forall S, In S (spec_suites v) -> row_guard v S) ->
+     spec_ok inp (obs_of (run_html_exec inp)) = true).
+Proof. exact oracle_accepts_model. Qed.
+Print Assumptions C14_oracle_accepts_model_partial.
+
+(* outside that guard the oracle's exit-status clause (distinct arch/date) and
+   the program disagree: see C14_page_iff_refuted *)
+Theorem C14_oracle_accepts_model_refuted :
+  ~ plain_input w_slash /\ run_html_exec w_slash = None /\
+  spec_check w_slash (obs_of (run_html_exec w_slash)) = [1].
+Proof. exact oracle_slash_witness. Qed.
+Print Assumptions C14_oracle_accepts_model_refuted.
 
 (* non-vacuity: two arches, three invocations with distinct start times, a
    suite that appears later, one that disappears, a failing one, a timeout:
